@@ -80,7 +80,7 @@ def run(ctx):
     ctx.tlc_expect_ok("StreamProto", "StreamProto_base.cfg", timeout=2700, deadlock=False,
                       overrides={"NEvents": "4"} if thorough else None, name="StreamProto/faithful")
     for sw, prop in (("M_Recharge", "ChargedRight"), ("M_SignalOnPut", None), ("M_UnblockOnlyIfEmpty", "NoEventLost"),
-                     ("M_CommitCheckUnderLock", "CommitMonotone")):
+                     ("M_CommitCheckUnderLock", "CommitMonotone"), ("M_UnblockRechecksBlocked", "NoCodePanic")):
         r = ctx.tlc("StreamProto", "StreamProto_base.cfg", timeout=900, deadlock=False, overrides={sw: "FALSE"}, name="StreamProto/mutant-%s" % sw)
         if r.ok:
             raise vlib.Infra("spec mutant %s of StreamProto is not rejected: mechanism vacuous" % sw)
